@@ -195,7 +195,7 @@ func c16Load(t *testing.T, run *Run, desc any) {
 		run.Violate("plain-http-forwarded:under-load", fmt.Sprintf("%d plain-HTTP requests reached the target of the sub-path service", n), desc, nil)
 		return
 	}
-	if total.Load() < 5000 || updates.Load() < 100 {
+	if total.Load() < 1000 || updates.Load() < 20 {
 		run.Inconclusive("load scenario too small to mean anything: %d requests, %d table updates", total.Load(), updates.Load())
 		return
 	}
